@@ -532,6 +532,7 @@ def run_shard(spec, ctx):
         from ..sched import yieldrun
 
         codes = yieldrun.code_objects_of(ns.plugin.AES128Proxy, ns.aes.AESModeOfOperationCBC, ns.aes.AESBlockModeOfOperation)
+        codes += [c_ for c_ in yieldrun.code_objects_of_module(ns.plugin) + yieldrun.code_objects_of(ns.aes, ns.blockfeeder) if c_ not in codes]  # module-level helpers and every class of these modules
         total_y = 0
         for rnd in range(spec["rounds"]):
             nthreads = (2, 3, 4)[rnd % 3]
